@@ -30,6 +30,7 @@ type State struct {
 	ver       int64
 	dirty     map[Atom]int64   // memory cell atoms -> version of their last write
 	loopEnter map[string]int64 // loop id -> version when the loop was entered from outside
+	inSaturate bool
 	loadMemo  map[string]Atom  // (opt-in) unresolved address -> atom of the last integer load, valid until the next store/call
 }
 
@@ -648,6 +649,34 @@ func (s *State) AddLCong(e Lin, m int64) {
 		s.lc = s.lc[1:]
 	}
 	s.lc = append(s.lc, LinCong{e, m})
+	s.saturateLC(LinCong{e, m})
+}
+
+// saturateLC: E ≡ 0 (mod M) with -M < E < M entailed gives E = 0; the same for the difference of the new
+// congruence with each older one of the same modulus (two remainders of the same value are equal).
+func (s *State) saturateLC(n LinCong) {
+	if s.dead || s.inSaturate {
+		return
+	}
+	s.inSaturate = true
+	defer func() { s.inSaturate = false }()
+	try := func(e Lin, m int64) {
+		if e.Bad || len(e.T) == 0 || len(e.T) > 3 {
+			return
+		}
+		b := s.Bounds(e)
+		if b.HasLo && b.HasHi && b.Lo > -m && b.Hi < m {
+			s.AssumeEq(e)
+		}
+	}
+	try(n.E, n.M)
+	for _, l := range s.lc {
+		if l.M != n.M || l.E.Equal(n.E) {
+			continue
+		}
+		try(n.E.Sub(l.E), n.M)
+		try(n.E.Add(l.E), n.M)
+	}
 }
 
 // Rename substitutes atom from by atom to everywhere (to must be unused).
@@ -891,4 +920,54 @@ func (s *State) ModularValues(e Lin, m int64) []Lin {
 		}
 	}
 	return out
+}
+
+// SaturateCong combines unit congruences x ≡ r (mod m) with the linear congruences of the same modulus:
+// x -/+ E is determined modulo m; if its entailed range is narrower than m... more precisely, if exactly one
+// constant c of the right residue puts x -/+ E - c strictly inside (-m, m), then x -/+ E = c.
+// (Two remainders of related values computed at different places are recognised as equal this way.)
+func (s *State) SaturateCong() {
+	if s.dead || s.inSaturate {
+		return
+	}
+	s.inSaturate = true
+	defer func() { s.inSaturate = false }()
+	var atoms []Atom
+	for a := range s.cong {
+		atoms = append(atoms, a)
+	}
+	sort.Slice(atoms, func(i, j int) bool { return atoms[i] < atoms[j] })
+	lcs := append([]LinCong(nil), s.lc...)
+	for _, x := range atoms {
+		cg := s.cong[x]
+		if !cg.ok() || cg.M > 1<<20 {
+			continue
+		}
+		for _, l := range lcs {
+			if l.M%cg.M != 0 || l.E.Coef(x) != 0 {
+				continue
+			}
+			m := cg.M
+			for _, sign := range []int64{1, -1} {
+				e0 := Var(x).AddMul(l.E, -sign) // x - sign*E ; E ≡ 0  =>  e0 ≡ r (mod m)
+				if e0.Bad || len(e0.T) > 4 {
+					continue
+				}
+				b := s.Bounds(e0)
+				if !b.HasLo || !b.HasHi || b.Hi-b.Lo >= 2*m {
+					continue
+				}
+				// candidates c ≡ r (mod m) with hi-m < c < lo+m
+				lo, hi := b.Hi-m+1, b.Lo+m-1
+				first := lo + modpos(cg.R-lo, m)
+				if first > hi {
+					continue
+				}
+				if first+m <= hi {
+					continue // ambiguous
+				}
+				s.AssumeEq(e0.AddConst(-first))
+			}
+		}
+	}
 }
